@@ -181,8 +181,16 @@ pub fn run(ctx: &mut Ctx) {
         }
     }
     ctx.exhaustive_domains.push(format!("all {} strings over {{^ 1 v | L}} up to length {} (wire clause up to length 6)", total2, maxlen2));
+    // Latin-1 letters whose bytes look like a byte-order mark (FF FE / FE FF / EF BB BF), at the start and elsewhere, with and
+    // without anything that needs escaping or a codepage switch after them
+    for pre in ["\u{ff}\u{fe}", "\u{fe}\u{ff}", "\u{ef}\u{bb}\u{bf}", "\u{ff}", "\u{fe}", "\u{ef}\u{bb}"] {
+        for suf in ["", "ab", "|x", "?", "^", " \u{11b}", "a\u{ff}\u{fe}", "\u{0436}"] {
+            do_string(ctx, &format!("{}{}", pre, suf), true, true);
+            do_string(ctx, &format!("a{}{}", pre, suf), true, true);
+        }
+    }
     // random longer Unicode strings
-    let pool: Vec<char> = "^^^0189vacdsqtlrh|*:\\/?\"<>#LGCETBJHSK abcXYZ_-.,\u{b2}\u{bd}\u{ff15}\u{663}é€ěšЖяαβğşąłıİ日本語한국어中文ﾏ¥訖\u{1f600}\u{fffd}\u{0}".chars().collect();
+    let pool: Vec<char> = "^^^0189vacdsqtlrh|*:\\/?\"<>#LGCETBJHSK abcXYZ_-.,\u{b2}\u{bd}\u{ff15}\u{663}\u{ff}\u{fe}\u{ef}\u{bb}\u{bf}é€ěšЖяαβğşąłıİ日本語한국어中文ﾏ¥訖\u{1f600}\u{fffd}\u{0}".chars().collect();
     let n = if ctx.quick() { 4000 } else { 400_000 };
     for _ in 0..n {
         let len = ctx.rng.below(40) as usize;
